@@ -83,9 +83,17 @@ func (s *singleWidthIndex) Unmarshal(r io.Reader) error {
 		return err
 	}
 
-	buf := make([]byte, dataLen)
-	if _, err := io.ReadFull(r, buf); err != nil {
+	// Do not trust dataLen with an up-front allocation: read what is actually there, so that memory
+	// use stays proportional to the input even for a forged length.
+	buf, err := io.ReadAll(io.LimitReader(r, int64(dataLen)))
+	if err != nil {
 		return err
+	}
+	if uint64(len(buf)) != dataLen {
+		if len(buf) == 0 {
+			return io.EOF
+		}
+		return io.ErrUnexpectedEOF
 	}
 	s.index = buf
 	return nil
